@@ -82,6 +82,7 @@ package db
 //@   ensures[spec] result == ite(revid in tree, tree[revid].Parent, "")
 
 //@ func RevTree.isLeaf
+//@   props C04 C05
 //@   safety on
 //@   requires treeWF(tree)
 //@   ensures[spec] result <==> leafOf(tree, revid)
@@ -321,6 +322,7 @@ package db
 //@      (parent != "" && revOK(id) && revOK(parent) && revGenOf(id) <= revGenOf(parent))
 
 //@ func RevTree.addRevision
+//@   props C04 C05
 //@   safety on
 //@   requires tree != nil && treeWF(tree)
 //@   modifies elems(tree), RevInfo.Channels
@@ -384,6 +386,7 @@ package db
 // After updateWinningRevAndSetDocFlags the document's current revision is the winner of its tree and the
 // Deleted / Conflict / Branched bits agree with its leaves.
 //@ func Document.updateWinningRevAndSetDocFlags
+//@   props C04 C05
 //@   mode bv
 //@   safety on
 //@   requires doc != nil && treeWF(doc.History) && idsOK(doc.History)
@@ -406,6 +409,7 @@ package db
 //@   is parentRevID == doc.SyncData.GetRevTreeID() || doc.SyncData.GetRevTreeID() == ""
 
 //@ func DatabaseCollectionWithUser.IsIllegalConflict
+//@   props C04 C05
 //@   safety on
 //@   requires db != nil && db.DatabaseCollection != nil && db.DatabaseCollection.dbCtx != nil && doc != nil && treeWF(doc.History)
 //@   ensures[unrestricted] !icRestricted(db, noConflicts) ==> !result
